@@ -372,8 +372,7 @@ impl Compiled for AST {
 
             AST::Array { size, value } => {
                 match value.deref() {
-                    AST::Boolean(_) | AST::Integer(_) | AST::Null |
-                    AST::AccessVariable { name:_ } | AST::AccessField { object:_, field:_ } => {
+                    simple if is_simple_initializer(simple) => {
                         size.deref().compile_into(program, active_buffer, global_environment, current_frame, true)?;
                         value.deref().compile_into(program, active_buffer, global_environment, current_frame, true)?;
                         active_buffer.emit(OpCode::Array);
@@ -639,6 +638,16 @@ impl Compiled for AST {
         };
 
         Ok(())
+    }
+}
+
+/// An array initializer that can be evaluated once and copied into every element, because evaluating it has no
+/// effects: a literal, a variable, or a field of such an expression. Anything else is re-evaluated per element.
+fn is_simple_initializer(ast: &AST) -> bool {
+    match ast {
+        AST::Boolean(_) | AST::Integer(_) | AST::Null | AST::AccessVariable { name:_ } => true,
+        AST::AccessField { object, field:_ } => is_simple_initializer(object.deref()),
+        _ => false,
     }
 }
 
